@@ -46,6 +46,15 @@ pub fn c01(ctx: &Ctx) -> PropResult {
     for src in operand_order_family() {
         cases.push(run_case(src, "operand-order"));
     }
+    for src in crate::props6::length_changing_operand_family() {
+        cases.push(run_case(src, "length-changing-operand"));
+    }
+    for src in crate::props6::concat_operand_kinds_family() {
+        cases.push(run_case(src, "concat-operand-kinds"));
+    }
+    for src in crate::props6::condition_value_family() {
+        cases.push(run_case(src, "condition-values"));
+    }
     // indexing a string is by character: every position of strings with multi-byte characters, inside expressions
     for st in ["héllo wörld", "aé中😀b", "😀", "ab", "日本語テキスト"] {
         let n = st.chars().count();
@@ -86,7 +95,7 @@ pub fn c01(ctx: &Ctx) -> PropResult {
     let stats = run_cases(&ctx.driver, cases, &no_panic_oracle, &no_known, ctx.threads);
     PropResult {
         stats,
-        rule: format!("exhaustive operator table: 13 binary/logical operators x {0}x{0} operand exemplars (0, -0, 1, -1, fractions, 2^53+1, 1e308, inf, -inf, NaN, strings incl. non-ASCII, TRUE, FALSE, NULL, empty/one-element/nested lists, native object) and 2 unary operators x {0}; random expression trees to depth 5 (thorough 7) over literals, variables, assignment, indexing, indexed assignment, list literals, calls, with a probe procedure that displays a tag at operands; compared: output bytes, end class, error span; non-trivial = the run ended normally or with a runtime error", EXEMPLARS.len()),
+        rule: format!("exhaustive operator table: 13 binary/logical operators x {0}x{0} operand exemplars (0, -0, 1, -1, fractions, 2^53+1, 1e308, inf, -inf, NaN, strings incl. non-ASCII, TRUE, FALSE, NULL, empty/one-element/nested lists, native object) and 2 unary operators x {0}; random expression trees to depth 5 (thorough 7) over literals, variables, assignment, indexing, indexed assignment, list literals, calls, with a probe procedure that displays a tag at operands; compared: output bytes, end class, error span; non-trivial = the run ended normally or with a runtime error; operands that change the length of the list another operand addresses; list + over 13 x 13 kinds of operand expression; every value class as the condition of REPEAT UNTIL (sequences false, false, true), IF, ELSE IF, NOT, AND, OR", EXEMPLARS.len()),
         exhaustive: false,
         notes: vec![],
     }
@@ -311,6 +320,10 @@ pub fn c02(ctx: &Ctx) -> PropResult {
     // general random programs
     let n2 = if ctx.quick() { 2_000 } else { 60_000 };
     cases.extend(crate::props::random_programs(ctx, 22, n2, 6, "random-program"));
+    // every class of value as the condition of every conditional construct
+    for src in crate::props6::condition_value_family() {
+        cases.push(run_case(src, "condition-values"));
+    }
     // every statement position of a three-statement loop body takes BREAK / CONTINUE, for every loop form and count
     for (head, tail) in [("REPEAT 3 TIMES {", "}"), ("k <- 0\nREPEAT UNTIL (k >= 3) {\nk <- k + 1", "}"), ("FOR EACH x IN [1, 2, 3] {", "}")] {
         for ctl in ["BREAK", "CONTINUE"] {
@@ -412,7 +425,7 @@ pub fn c02(ctx: &Ctx) -> PropResult {
     let stats = run_cases(&ctx.driver, cases, &newline_twin_oracle, &no_known, ctx.threads);
     PropResult {
         stats,
-        rule: "random control-flow skeletons (depth <= 3, <= 3 statements per block; IF/ELSE over 10 condition values incl. 0, -0, NULL, \"\", []; REPEAT TIMES with counts 0, 1, 2, 3, 2.7, -1, 0.99, variable; REPEAT UNTIL; FOR EACH over lists and strings incl. non-ASCII and an outer variable of the same name; BREAK/CONTINUE wherever a loop encloses) with a DISPLAY probe per statement; BREAK/CONTINUE at every position of a three-statement body of every loop form, bare and guarded, alone and nested; random general programs; non-trivial = ended normally or with a runtime error".into(),
+        rule: "random control-flow skeletons (depth <= 3, <= 3 statements per block; IF/ELSE over 10 condition values incl. 0, -0, NULL, \"\", []; REPEAT TIMES with counts 0, 1, 2, 3, 2.7, -1, 0.99, variable; REPEAT UNTIL; FOR EACH over lists and strings incl. non-ASCII and an outer variable of the same name; BREAK/CONTINUE wherever a loop encloses) with a DISPLAY probe per statement; BREAK/CONTINUE at every position of a three-statement body of every loop form, bare and guarded, alone and nested; random general programs; non-trivial = ended normally or with a runtime error; every falsy and truthy value class as a condition REPEAT UNTIL re-tests, and under IF / unbraced IF / ELSE IF / NOT / AND / OR, directly, through a procedure and through an assignment".into(),
         exhaustive: false,
         notes: vec![],
     }
@@ -555,6 +568,9 @@ pub fn c03(ctx: &Ctx) -> PropResult {
     for src in crate::props6::unbraced_body_family() {
         cases.push(run_case(src, "unbraced-body"));
     }
+    for src in crate::props6::empty_body_family() {
+        cases.push(run_case(src, "empty-body"));
+    }
     for src in crate::props6::returned_list_identity_family() {
         cases.push(run_case(src, "returned-list-identity"));
     }
@@ -579,7 +595,7 @@ pub fn c03(ctx: &Ctx) -> PropResult {
     let stats = run_cases(&ctx.driver, cases, &newline_twin_oracle, &no_known, ctx.threads);
     PropResult {
         stats,
-        rule: "random programs with 1-3 procedures (0-3 parameters, bodies with nested IF / all three loops / RETURN valued or bare / recursion), calls nested in expressions, argument counts off by one, undefined names; RETURN (valued, bare, with expression, absent) at each of 3 positions inside 6 nesting wrappers followed by probes; fixed scenarios for recursion, mutual recursion, scope isolation in both directions, by-value / by-reference, argument order; non-trivial = ended normally or with a runtime error; every parameter count in 0..3, 254..256 against argument counts 0..4, 253..257, 511, 512; bodies of one statement without braces (and their braced twins) touching names of the caller; eleven ways to get a list back from a procedure x six operations through the result / the original".into(),
+        rule: "random programs with 1-3 procedures (0-3 parameters, bodies with nested IF / all three loops / RETURN valued or bare / recursion), calls nested in expressions, argument counts off by one, undefined names; RETURN (valued, bare, with expression, absent) at each of 3 positions inside 6 nesting wrappers followed by probes; fixed scenarios for recursion, mutual recursion, scope isolation in both directions, by-value / by-reference, argument order; non-trivial = ended normally or with a runtime error; every parameter count in 0..3, 254..256 against argument counts 0..4, 253..257, 511, 512; bodies of one statement without braces (and their braced twins) touching names of the caller; eleven ways to get a list back from a procedure x six operations through the result / the original; empty bodies in six forms with parameters named like the caller's variables".into(),
         exhaustive: false,
         notes: vec![],
     }
@@ -652,6 +668,18 @@ pub fn c04(ctx: &Ctx) -> PropResult {
     for src in crate::props6::for_each_later_position_family() {
         cases.push(run_case(src, "for-each-later-position"));
     }
+    // index reads / writes, INSERT and literals whose operands have effects on the variable or the list another operand uses
+    for src in operand_order_family() {
+        if src.contains('[') {
+            cases.push(run_case(src, "operand-order"));
+        }
+    }
+    for src in crate::props6::length_changing_operand_family() {
+        cases.push(run_case(src, "length-changing-operand"));
+    }
+    for src in crate::props6::concat_operand_kinds_family() {
+        cases.push(run_case(src, "concat-operand-kinds"));
+    }
     // x <- y with x already a list and y another list with the same printed contents: x's cell takes y's elements (the
     // inner lists of y, its own zeros), whatever x held
     for (xs, ys) in [("[[1], [2]]", "[[1], [2]]"), ("[0, 5]", "[-0, 5]"), ("[[[]]]", "[[[]]]"), ("[\"a\", [1]]", "[\"a\", [1]]"), ("[1, 2]", "[1, 2]")] {
@@ -685,7 +713,7 @@ pub fn c04(ctx: &Ctx) -> PropResult {
     let stats = run_cases(&ctx.driver, cases, &no_panic_oracle, &no_known, ctx.threads);
     PropResult {
         stats,
-        rule: "random histories (length <= 12, thorough 30) over variables a, b (lists), c (string), d (alias): literal, assignment between variables, index read / write with 14 index values (-1, 0, 0.5, 1, 1.9, 2, LENGTH, LENGTH+0.5, LENGTH+1, LENGTH+2, NaN, inf, string, NULL), APPEND, INSERT, REMOVE, LENGTH, +, passing to a procedure that mutates then reassigns its parameter, nesting in a list, aliasing; all variables displayed after every step; plus every index value on a list and a non-ASCII string for read / write / INSERT / REMOVE; non-trivial = ended normally or with a runtime error; lists handed back by procedures (the parameter, an element, a local, through a second procedure, from a loop, a copy) changed through the result and through the original; FOR EACH while the body changes the list at the current, an earlier or a later position (index write, INSERT, REMOVE, APPEND, by name / alias, every ending)".into(),
+        rule: "random histories (length <= 12, thorough 30) over variables a, b (lists), c (string), d (alias): literal, assignment between variables, index read / write with 14 index values (-1, 0, 0.5, 1, 1.9, 2, LENGTH, LENGTH+0.5, LENGTH+1, LENGTH+2, NaN, inf, string, NULL), APPEND, INSERT, REMOVE, LENGTH, +, passing to a procedure that mutates then reassigns its parameter, nesting in a list, aliasing; all variables displayed after every step; plus every index value on a list and a non-ASCII string for read / write / INSERT / REMOVE; non-trivial = ended normally or with a runtime error; lists handed back by procedures (the parameter, an element, a local, through a second procedure, from a loop, a copy) changed through the result and through the original; FOR EACH while the body changes the list at the current, an earlier or a later position (index write, INSERT, REMOVE, APPEND, by name / alias, every ending); the operand-order family; statements whose operands change the length of the list they address; list + over 13 x 13 kinds of operand expression".into(),
         exhaustive: false,
         notes: vec![],
     }
@@ -759,6 +787,16 @@ pub fn c05(ctx: &Ctx) -> PropResult {
             for o2 in ["*", "/"] {
                 trees.push(PExpr::Bin(o1, l(0), Box::new(PExpr::Bin(o2, l(1), l(2)))));
                 trees.push(PExpr::Bin(o1, Box::new(PExpr::Bin(o2, l(0), l(1))), l(2)));
+            }
+        }
+    }
+    // every triple of binary operators in the balanced shape (a op2 b) op1 (c op3 d): both operands of the outer operator
+    // are operator expressions (fast paths that look at the shape of both children)
+    for op1 in P_BINOPS {
+        for op2 in P_BINOPS {
+            for op3 in P_BINOPS {
+                let l = |i: usize| Box::new(PExpr::Leaf(format!("P({}, v{})", i + 1, i)));
+                trees.push(PExpr::Bin(op1, Box::new(PExpr::Bin(op2, l(0), l(1))), Box::new(PExpr::Bin(op3, l(2), l(3)))));
             }
         }
     }
@@ -871,7 +909,7 @@ pub fn c05(ctx: &Ctx) -> PropResult {
     let stats = run_cases(&ctx.driver, cases, &oracle, &no_known, ctx.threads);
     PropResult {
         stats,
-        rule: format!("{} expression trees: every ordered pair of the 13 binary operators in both shapes, every binary operator with unary -, NOT, assignment and indexing at each operand (thorough: every triple in all five shapes), random trees with 2-8 operators incl. calls, assignment and indexing; each rendered with only the required parentheses and fully parenthesised, run under {} valuations (distinct primes, zeros for errors, mixed kinds) with a probe procedure at every leaf so that order, once-ness and short-circuiting show in the output; implementation-only oracle: both renderings behave identically (output, end class, error kind); the minimal rendering is also compared with the model; chains of postfix operators (indexing of an indexing or of a call result, two and three deep, under every binary and unary operator, as assignment target) with valuations failing at the first, second or third step", trees.len(), per_tree),
+        rule: format!("{} expression trees: every ordered pair of the 13 binary operators in both shapes, every binary operator with unary -, NOT, assignment and indexing at each operand (thorough: every triple in all five shapes), random trees with 2-8 operators incl. calls, assignment and indexing; each rendered with only the required parentheses and fully parenthesised, run under {} valuations (distinct primes, zeros for errors, mixed kinds) with a probe procedure at every leaf so that order, once-ness and short-circuiting show in the output; implementation-only oracle: both renderings behave identically (output, end class, error kind); the minimal rendering is also compared with the model; chains of postfix operators (indexing of an indexing or of a call result, two and three deep, under every binary and unary operator, as assignment target) with valuations failing at the first, second or third step; every triple of operators in the balanced shape (a . b) . (c . d)", trees.len(), per_tree),
         exhaustive: false,
         notes: vec![],
     }
